@@ -39,6 +39,9 @@ pub enum Resolve {
     Both,
     HumanText,
     Abort,
+    /// `git cherry-pick --quit` at the conflict stop (keeps the commits already picked),
+    /// then the conflicted work tree is cleaned; other operations treat it like Abort
+    Quit,
 }
 
 #[derive(Clone, Debug, Serialize, Deserialize)]
@@ -77,6 +80,9 @@ pub enum HOp {
     Rm { file: u8 },
     Revert { back: u8 },
     BranchDelete { branch: u8 },
+    /// `git reset --soft|--mixed HEAD~back` with uncommitted work in the tree (no commit
+    /// first), then everything is committed (safety clause only)
+    ResetDirty { back: u8, soft: bool },
     /// must-not-change-anything forms
     RebaseDirty { target: u8 },
     DryRunCommit,
@@ -121,6 +127,8 @@ impl HOp {
             HOp::ResetSoft { .. } => "reset-soft",
             HOp::ResetMixed { .. } => "reset-mixed",
             HOp::ResetHard { .. } => "reset-hard",
+            HOp::ResetDirty { soft: true, .. } => "reset-soft-dirty",
+            HOp::ResetDirty { .. } => "reset-mixed-dirty",
             HOp::Stash => "stash",
             HOp::StashPop { .. } => "stash-pop",
             HOp::StashApply { .. } => "stash-apply",
@@ -195,6 +203,7 @@ pub fn resolve() -> impl Strategy<Value = Resolve> {
         3 => Just(Resolve::Both),
         3 => Just(Resolve::HumanText),
         2 => Just(Resolve::Abort),
+        2 => Just(Resolve::Quit),
     ]
 }
 
@@ -298,6 +307,28 @@ pub fn sandwich_partial_block() -> impl Strategy<Value = Vec<HOp>> {
                 HOp::CommitHunks { file, mask: if mask < 5 { 0b010 } else { mask } },
                 HOp::Commit,
             ]
+        },
+    )
+}
+
+/// An agent's lines are committed, the agent adds more (pending), a person types above them
+/// without any checkpoint, the last commit is taken back with `reset --soft|--mixed` while
+/// all that is still in the tree, and everything is committed again.
+pub fn reset_with_pending_work_block() -> impl Strategy<Value = Vec<HOp>> {
+    (gen::ai_actor(), 0u8..3, gen::line_specs(2), gen::line_specs(2), gen::line_specs(2), any::<bool>(), 1u8..3, any::<bool>()).prop_map(
+        |(ai, file, l1, l2, hl, soft, back, human_first)| {
+            let mut v = vec![HOp::Edit { actor: ai, file, edit: Edit::Insert { pos: 0x8000, lines: l1 } }, HOp::Commit];
+            let a = HOp::Edit { actor: ai, file, edit: Edit::Insert { pos: 0xf000, lines: l2 } };
+            let h = HOp::Edit { actor: Actor::Human, file, edit: Edit::Insert { pos: 0, lines: hl } };
+            if human_first {
+                v.push(h);
+                v.push(a);
+            } else {
+                v.push(a);
+                v.push(h);
+            }
+            v.push(HOp::ResetDirty { back, soft });
+            v
         },
     )
 }
@@ -706,7 +737,7 @@ impl Engine {
             if !is_payload && l.starts_with(">>>>>>>") && state == 3 {
                 state = 0;
                 let mut chosen: Vec<String> = match how {
-                    Resolve::Ours | Resolve::Abort => ours.clone(),
+                    Resolve::Ours | Resolve::Abort | Resolve::Quit => ours.clone(),
                     Resolve::Theirs => theirs.clone(),
                     Resolve::Both => ours.iter().chain(theirs.iter()).cloned().collect(),
                     Resolve::HumanText => {
@@ -763,6 +794,15 @@ impl Engine {
             };
             conflicted = true;
             rep.class(format!("conflict:{op}"));
+            if how == Resolve::Quit && (op == "cherry-pick" || op == "revert") {
+                // forget the sequence, keep what was already picked; then clean the
+                // conflicted tree the way a user would
+                rep.class(format!("quit:{op}"));
+                self.w.git(&[op, "--quit"]);
+                self.w.git(&["reset", "--hard", "-q"]);
+                return (true, false);
+            }
+            let how = if how == Resolve::Quit { Resolve::Abort } else { how };
             if how == Resolve::Abort {
                 let o = match op {
                     "rebase" => self.w.git(&["rebase", "--abort"]),
@@ -1865,6 +1905,24 @@ impl Engine {
                     }
                 }
             }
+            HOp::ResetDirty { back, soft } => {
+                out.class = OpClass::Destructive;
+                let depth = self.w.rgit(&["rev-list", "--count", "--first-parent", "HEAD"]).out_trim().parse::<u32>().unwrap_or(1);
+                let k = (*back as u32).max(1).min(depth.saturating_sub(1));
+                if k == 0 || self.w.rgit(&["rev-list", "--count", "--merges", &format!("HEAD~{k}..HEAD")]).out_trim() != "0" {
+                    out.class = OpClass::Skipped;
+                    return out;
+                }
+                if self.dirty() {
+                    rep.class("reset-with-uncommitted-work");
+                }
+                let o = self.w.git(&["reset", if *soft { "--soft" } else { "--mixed" }, "-q", &format!("HEAD~{k}")]);
+                out.ok = o.ok();
+                self.register_new_commits(kind);
+                if out.ok {
+                    self.commit_pending("recommit after reset with work in the tree", kind, rep);
+                }
+            }
             HOp::RebaseDirty { target } => {
                 out.class = OpClass::MustNotChange;
                 let t = self.branch_of(*target);
@@ -1967,7 +2025,7 @@ impl Engine {
                 if !um.is_empty() {
                     out.conflicted = true;
                     rep.class("conflict:merge-squash");
-                    if *resolve == Resolve::Abort {
+                    if matches!(*resolve, Resolve::Abort | Resolve::Quit) {
                         self.w.git(&["reset", "--hard", "-q"]);
                         out.aborted = true;
                         self.w.resync_from_worktree();
@@ -2188,7 +2246,7 @@ impl Engine {
                     out.conflicted = true;
                     rep.class("conflict:stash");
                     for p in um {
-                        self.resolve_file(&p, if *resolve == Resolve::Abort { Resolve::Theirs } else { *resolve });
+                        self.resolve_file(&p, if matches!(*resolve, Resolve::Abort | Resolve::Quit) { Resolve::Theirs } else { *resolve });
                         self.w.git(&["add", "--", &p]);
                     }
                     self.w.git(&["reset", "-q"]);
